@@ -35,7 +35,70 @@ pub fn run_parent(ctx: &mut Ctx) {
         ("HF_XET_TARGET_CHUNK_SIZE".into(), t.to_string()), ("HF_XET_MAX_XORB_BYTES".into(), b.to_string()), ("HF_XET_MAX_XORB_CHUNKS".into(), c.to_string()),
         ("HF_XET_INGESTION_BLOCK_SIZE".into(), i.to_string()), ("HF_XET_MDB_SHARD_TARGET_SIZE".into(), s.to_string()), ("HF_XET_MDB_SHARD_MIN_TARGET_SIZE".into(), s.to_string()),
     ]).collect();
+    let mut cfgs = cfgs;
+    // one more child: one client machine (one xet cache root) talking to several CAS servers, configured by `default_config`
+    let cache_root = PathBuf::from(std::env::var("TMPDIR").unwrap_or("/verif/run/tmp".into())).join(format!("two-servers-cache-{}-{}", std::process::id(), ctx.seed));
+    cfgs.push(vec![("XET_VERIF_TWO_SERVERS".into(), "1".into()), ("HF_XET_CACHE".into(), cache_root.to_string_lossy().into()), ("HF_XET_TARGET_CHUNK_SIZE".into(), "4096".into())]);
     run_children(ctx, "session-child", &cfgs);
+    let _ = std::fs::remove_dir_all(&cache_root);
+}
+
+/// One client machine, several servers: the client-side configuration of each session is what `data_client::default_config`
+/// computes for the server's endpoint (cache directories under the one HF_XET_CACHE root); only the transport is replaced by a
+/// separate local store per server.  Session 1 uploads X to server A, session 2 uploads P ++ X ++ R to server B.
+/// C02: every file record in the shards uploaded to a server references xorbs that exist on that server.
+fn two_servers(ctx: &mut Ctx) {
+    use data::configurations::{DataConfig, Endpoint, ShardConfig};
+    let tp = Arc::new(ThreadPool::new().expect("threadpool"));
+    let tmp_root = PathBuf::from(std::env::var("TMPDIR").unwrap_or("/verif/run/tmp".into())).join(format!("two-servers-{}-{}", std::process::id(), ctx.seed));
+    let mut rng = ctx.rng.fork(77_000);
+    let port = rng.range(1024, 60000);
+    let pairs: Vec<(String, String)> = vec![
+        (format!("http://localhost:{port}"), format!("http://localhost:{}", port + 1)),
+        ("https://cas-server.xethub.hf.co".into(), "https://cas-server.staging.xethub.hf.co".into()),
+        (format!("https://hub.example.org/api/cas/{}", rng.below(1000)), "https://hub.example.org/api/cas-eu/".into()),
+        ("http://a.example.org".into(), "http://b.example.org".into()),
+    ];
+    for (pi, (ea, eb)) in pairs.iter().enumerate() {
+        let stores = [tmp_root.join(format!("pair{pi}-server-a")), tmp_root.join(format!("pair{pi}-server-b"))];
+        let (nx, np) = (rng.range(100_000, 300_000) as usize, rng.range(1, 50_000) as usize);
+        let x = rng.bytes(nx);
+        let mut y = rng.bytes(np); y.extend_from_slice(&x); let n = rng.range(1, 50_000) as usize; y.extend_from_slice(&rng.bytes(n));
+        let replay = format!("{{\"suite\":\"session\",\"scenario\":\"two-servers\",\"seed\":{},\"endpoint_a\":\"{ea}\",\"endpoint_b\":\"{eb}\",\"x_len\":{},\"y_len\":{}}}", ctx.seed, x.len(), y.len());
+        for (si, (endpoint, store, data)) in [(ea, &stores[0], &x), (eb, &stores[1], &y), (ea, &stores[0], &y)].into_iter().enumerate() {
+            let c = match data::data_client::default_config(endpoint.clone(), None, None, None) { Ok(c) => c, Err(e) => { ctx.fail("C01", "default-config-failed", format!("default_config({endpoint}) failed: {e}"), replay.clone()); continue; } };
+            std::fs::create_dir_all(store).unwrap();
+            let cfg = Arc::new(TranslatorConfig {
+                data_config: DataConfig { endpoint: Endpoint::FileSystem(store.clone()), compression: c.data_config.compression, auth: None, prefix: c.data_config.prefix.clone(), cache_config: c.data_config.cache_config.clone(), staging_directory: None },
+                shard_config: ShardConfig { prefix: c.shard_config.prefix.clone(), cache_directory: c.shard_config.cache_directory.clone(), session_directory: c.shard_config.session_directory.clone(), global_dedup_policy: c.shard_config.global_dedup_policy, repo_salt: c.shard_config.repo_salt },
+                repo_info: None,
+            });
+            let (tp2, d2) = (tp.clone(), data.clone());
+            let r = tp.external_run_async_task(async move {
+                let session = FileUploadSession::new(cfg, tp2, None).await?;
+                let mut cl = session.start_clean("f".into());
+                cl.add_data(&d2).await?;
+                let r = cl.finish().await?;
+                session.finalize().await?;
+                Ok::<_, data::errors::DataProcessingError>(r)
+            }).unwrap();
+            if let Err(e) = r { ctx.fail("C01", "two-servers-session-failed", format!("session {si} against {endpoint} failed without any fault: {e}"), replay.clone()); continue; }
+            ctx.stat("two_server_sessions");
+            // every file record uploaded to this server references xorbs of this server
+            let shards = mdb_shard::MDBShardFile::load_all_valid(store.join("shards")).unwrap_or_default();
+            for sf in shards {
+                for fi in sf.read_all_file_info_sections().unwrap_or_default() {
+                    for (k, seg) in fi.segments.iter().enumerate() {
+                        let p = store.join("xorbs").join(format!("default.{}", seg.cas_hash.hex()));
+                        if !p.is_file() {
+                            ctx.fail("C02", "record-references-xorb-missing-on-its-server", format!("after session {si} (endpoint {endpoint}; one client cache root, earlier session against {}): file {} segment {k} in a shard uploaded to this server references xorb {}, which this server does not hold", if si == 1 { ea } else { eb }, fi.metadata.file_hash.hex(), seg.cas_hash.hex()), replay.clone());
+                        }
+                    }
+                }
+            }
+        }
+    }
+    let _ = std::fs::remove_dir_all(&tmp_root);
 }
 
 // ------------------------------------------------------------------------------------------------
@@ -198,6 +261,7 @@ fn gen_file(rng: &mut Rng, target: usize, pool: &mut Vec<Vec<u8>>, world_files: 
 struct Done { pointer: PointerFile, metrics: DeduplicationMetrics, oracle: Vec<String>, spec: FileSpec, sha: String }
 
 pub fn run_child(ctx: &mut Ctx) {
+    if std::env::var("XET_VERIF_TWO_SERVERS").is_ok() { two_servers(ctx); return; }
     let (target, mindiv, maxmul) = (*TARGET_CHUNK_SIZE, *MINIMUM_CHUNK_DIVISOR, *MAXIMUM_CHUNK_MULTIPLIER);
     let (maxb, maxc) = (*MAX_XORB_BYTES, *MAX_XORB_CHUNKS);
     let ingest: usize = std::env::var("HF_XET_INGESTION_BLOCK_SIZE").ok().and_then(|s| s.parse().ok()).unwrap_or(8 << 20);
